@@ -145,7 +145,7 @@ class _Boom(Exception):
     pass
 
 
-def run_case(prog, hist, ref, collect_all=False, _twin=False):
+def run_case(prog, hist, ref, collect_all=False, _twin=False, twin=True):
     """Realise `prog`, build `ref` (if any), run `hist`, build `ref` again; finally make the same
     constructions once more on new objects that are never built before (`_twin`: constructions only,
     returns {"env": …}) and build the last requests there: equal requests must give equal bytes
@@ -357,7 +357,7 @@ def run_case(prog, hist, ref, collect_all=False, _twin=False):
     out["ref_after"] = ref_build()
     if ref is not None and out["ref_after"] is not None:
         remember(ref, out["ref_after"])
-    if not viol and last_builds:
+    if twin and not viol and last_builds:
         # the same constructions on new objects, none of which has ever been built: the most recent requests
         # must give there what they gave here after everything that went before
         try:
